@@ -444,9 +444,9 @@ pub fn run(ctx: &Ctx) -> i32 {
                 continue;
             }
             Iso::Done(s) if s.starts_with("P:") => "panic",
-            Iso::Done(_) => "abort",
-            Iso::Hang => "hang",
-            Iso::Abort(_) => "abort",
+            // an unbounded traversal ends in memory exhaustion (abort) or in the watchdog (hang),
+            // whichever comes first on this machine: one outcome kind
+            Iso::Done(_) | Iso::Hang | Iso::Abort(_) => "no-result",
         };
         acc.outcome(&format!("cyclic-{}", observed));
         let what = usetext.trim_start_matches('(').split(|c: char| c == ' ' || c == ')').next().unwrap_or("").to_string();
